@@ -58,7 +58,7 @@ def gen_scripts(ctx, quick):
             tasks = []
             for i, p in enumerate(g["prio"]):
                 tasks.append({"id": "t%d" % (i + 1), "prio": p, "variant": rnd.choice(["run", "run", "start", "signal"]),
-                              "out": rnd.choice(["ok", "ok", "err", "panic"]), "done": rnd.choice([1, 2, 3]),
+                              "out": rnd.choice(["ok", "ok", "err", "errc", "panic"]), "done": rnd.choice([1, 2, 3]),
                               # a high priority microtask may span the start of its module (submitted before Start)
                               "pre": p == "high" and rnd.random() < 0.5})
             pol = ["sched" if a == 0 else "t%d" % a for a in g["policy"]]
